@@ -123,6 +123,12 @@ def witnesses(ctx):
            "observers": [{"type": "duration", "feature_types": ["operations"], "form": "class"}]}
 
 
+def _ftname(ft):
+    """name of a feature type, whether the observer keeps it as the enum member or as the plain
+    string it was given (the enum is a str: both are the same dictionary key)"""
+    return getattr(ft, "value", ft)
+
+
 def make_observer(d, spec):
     from job_shop_lib.dispatching import DispatcherObserverConfig
     from job_shop_lib.dispatching.feature_observers import (
@@ -137,6 +143,9 @@ def make_observer(d, spec):
     kw = {}
     if spec["feature_types"] is not None:
         fts = [FeatureType(x) for x in spec["feature_types"]]
+        if spec["form"] in ("string", "config") and (len(spec["type"]) + len(fts)) % 2 == 0:
+            # configurations read from a file carry the feature types as plain strings
+            fts = [str(x) for x in spec["feature_types"]]
         kw["feature_types"] = fts[0] if len(fts) == 1 and spec["form"] == "class" else fts
     t, form = spec["type"], spec["form"]
     if form == "class":
@@ -241,11 +250,11 @@ def compare(ctx, run, observers, now, avail, step_info):
         if name not in exp:
             continue
         for ft, arr in ob.features.items():
-            want = exp[name].get(ft.value, {})
-            n_ent = {"operations": r.num_ops, "machines": r.num_machines, "jobs": r.num_jobs}[ft.value]
+            want = exp[name].get(_ftname(ft), {})
+            n_ent = {"operations": r.num_ops, "machines": r.num_machines, "jobs": r.num_jobs}[_ftname(ft)]
             if arr.shape != (n_ent, 1) or arr.dtype != np.float32:
                 ctx.violation("c11_feature_array_shape_or_dtype",
-                              {"observer": name, "feature": ft.value, "shape": list(arr.shape),
+                              {"observer": name, "feature": _ftname(ft), "shape": list(arr.shape),
                                "dtype": str(arr.dtype)})
                 continue
             for ent, w in want.items():
@@ -255,10 +264,10 @@ def compare(ctx, run, observers, now, avail, step_info):
                     w = float(np.float32(w))      # the carrier is float32 by design
                     ctx.count("values_checked_as_float32_rounding")
                 if got != w:
-                    wit = {"observer": name, "feature": ft.value, "entity": ent, "got": got,
+                    wit = {"observer": name, "feature": _ftname(ft), "entity": ent, "got": got,
                            "want": w, "history": list(r.history), "filter": run.filter_names,
                            "now": now}
-                    wit.update(step_info(name, ft.value, ent))
+                    wit.update(step_info(name, _ftname(ft), ent))
                     ctx.violation("c11_feature_differs_from_definition", wit)
                     if ctx.too_many():
                         return False
@@ -274,7 +283,7 @@ def check_composite(ctx, comp, parts, where):
                 fts.append(ft)
     if set(comp.features) != set(fts):
         ctx.violation("c11_composite_feature_types", {"where": where,
-                      "got": sorted(k.value for k in comp.features), "want": sorted(k.value for k in fts)})
+                      "got": sorted(_ftname(k) for k in comp.features), "want": sorted(_ftname(k) for k in fts)})
         return
     for ft in fts:
         cols = [ob.features[ft] for ob in parts if ft in ob.features]
@@ -288,10 +297,10 @@ def check_composite(ctx, comp, parts, where):
         got = comp.features[ft]
         if got.shape != want.shape or not np.array_equal(got, want, equal_nan=True):
             ctx.violation("c11_composite_differs_from_concatenation",
-                          {"where": where, "feature": ft.value, "got": got.tolist(), "want": want.tolist()})
+                          {"where": where, "feature": _ftname(ft), "got": got.tolist(), "want": want.tolist()})
         if list(comp.column_names[ft]) != names:
             ctx.violation("c11_composite_column_names",
-                          {"where": where, "feature": ft.value, "got": list(comp.column_names[ft]), "want": names})
+                          {"where": where, "feature": _ftname(ft), "got": list(comp.column_names[ft]), "want": names})
 
 
 def run_history(ctx, case):
@@ -310,6 +319,25 @@ def run_history(ctx, case):
         for _ in range(rng.randint(1, r.num_ops - 1)):
             o0, m0 = run.choose(rng, "random_ready"); run.dispatch(o0, m0)
         ctx.count("histories_with_observers_created_on_a_partial_schedule")
+    if case["seed"] % 5 == 1:
+        # a request the library documents as unsupported (a feature type the observer does not
+        # offer) is refused; the caller catches the error - nothing of the refused observer stays
+        # behind on the dispatcher
+        for t_bad, sup in SUPPORTED.items():
+            missing = [x for x in FT if x not in sup]
+            if not missing:
+                continue
+            before_ids = [id(x) for x in d.subscribers]
+            try:
+                ob_bad = make_observer(d, {"type": t_bad, "feature_types": [rng.choice(missing)], "form": "enum"})
+            except Exception:
+                ctx.count("unsupported_feature_types_refused")
+                if [id(x) for x in d.subscribers] != before_ids:
+                    ctx.violation("c11_refused_observer_left_subscribed",
+                                  {"observer": t_bad, "subscribers": [type(x).__name__ for x in d.subscribers]})
+                    return
+            else:
+                d.unsubscribe(ob_bad)       # (a library that starts to offer it is fine)
     for spec in case["observers"]:
         try:
             ob = make_observer(d, spec)
@@ -493,10 +521,10 @@ def run_construct(ctx, case):
                 try:
                     ob = make_observer(d, {"type": t, "feature_types": fts, "form": form})
                     want = set(fts or sup)
-                    if {k.value for k in ob.features} != want or not any(x is ob for x in d.subscribers):
+                    if {_ftname(k) for k in ob.features} != want or not any(x is ob for x in d.subscribers):
                         ctx.violation("c11_constructed_observer_feature_types",
                                       {"observer": t, "requested": fts,
-                                       "got": sorted(k.value for k in ob.features)})
+                                       "got": sorted(_ftname(k) for k in ob.features)})
                 except Exception as e:
                     ctx.violation("c11_observer_cannot_be_constructed",
                                   {"observer": {"type": t, "feature_types": fts, "form": form},
